@@ -5,6 +5,7 @@ every crash image (a) evaluates the crash-safety specification on what the REAL 
 -/
 import Driver.Seq
 import Driver.Img
+import Sth.Model.Translate
 import Sth.Model.Recover
 
 namespace Driver.Crash
@@ -55,7 +56,10 @@ def step (st : St) (l : Line) : St × List Msg :=
     let r2 := (ra.get "r2").splitOn ","
     let tag := s!"crash at {point} tear={ra.get "tear"}: "
     -- (a) property oracle on the real recovery
-    let p0 := if openRes = "ok" then [] else [Msg.prop (tag ++ s!"next open does not succeed ({openRes})")]
+    -- inside the re-bucketing (C09) an open that fails is tolerated: the clause there is "never opens successfully with fewer keys"
+    let inTranslate := point.startsWith "translate." || point.startsWith "movefiles." || (st.lastOp == "open" && (point.startsWith "index." || point.startsWith "open."))
+    let p0 := if openRes = "ok" then [] else
+      if inTranslate && openRes = "err" then [] else [Msg.prop (tag ++ s!"next open does not succeed ({openRes})")]
     let pr := if openRes ≠ "ok" then [] else
       ((digs.zip r0).filterMap fun (dg, r) =>
         if r = "err" then some (Msg.prop (tag ++ s!"key {toHex dg} reads as an error after recovery"))
@@ -66,22 +70,27 @@ def step (st : St) (l : Line) : St × List Msg :=
       (if r2 = r1 then [] else [Msg.prop (tag ++ s!"contents change across close and rescan: r1=[{ra.get "r1"}] r2=[{ra.get "r2"}]")])
     -- (b) correspondence: the model's recovery of the same bytes
     let corr :=
-      if im.badIdxHdr ∨ im.badPriHdr then
+      if im.extra.any (fun n => (n.splitOn "/").length > 1) then []   -- translation temp directories: not modelled, oracle only
+      else if im.badIdxHdr ∨ im.badPriHdr then
         (if openRes = "err" then [] else [Msg.corr (tag ++ s!"recovery: model=[open=err (unparsable header)] impl=[open={openRes}]")])
       else
-        match openStoreR st.seq.cfg im.disk with
+        match (let r := openStoreT st.seq.cfg im.disk []; (r.1, r.2.1)) with
         | (_, .error _) => if openRes = "err" then [] else [Msg.corr (tag ++ s!"recovery: model=[open=err] impl=[open={openRes}]")]
         | (d', .ok m') =>
           if openRes ≠ "ok" then [Msg.corr (tag ++ s!"recovery: model=[open=ok] impl=[open={openRes}]")]
           else
             let (mr, _) := readAllModel m' d' st.keys
             if mr = r0 then [] else [Msg.corr (tag ++ s!"recovery reads: model=[{",".intercalate mr}] impl=[{ra.get "r0"}]")]
-    let flags := [Msg.flag "crash-image"] ++ (if ra.get "tear" ≠ "none" then [Msg.flag "torn"] else []) ++
+    let flags := [Msg.flag "crash-image"] ++ (if inTranslate then [Msg.flag "translate-crash"] else []) ++
+      (if inTranslate && openRes = "err" then [Msg.flag "translate-crash-open-refused"] else []) ++ (if ra.get "tear" ≠ "none" then [Msg.flag "torn"] else []) ++
       [Msg.flag ("at:" ++ (point.splitOn ".").headD "")]
     -- recognisers of the known findings (decidable predicates on the image / history, not on the outcome)
     let tornPrimary := ((ra.get "tear").splitOn "storethehash.data.").length > 1
+    -- D13: between the moment the old header left the index directory and the moment the new one arrived
+    let noHeader := inTranslate && im.disk.ihdr.isNone && !im.badIdxHdr
     let tainted := if isEnd then st.taint11 else (st.imgTaint11 || st.taint11)
-    let known := if tornPrimary then " [known:D12 torn-primary-tail]" else if tainted then " [known:D11 gc-handover-with-dirty-index]" else ""
+    let known := if noHeader then " [known:D13 translate-header-absent]" else if tornPrimary then " [known:D12 torn-primary-tail]"
+                 else if tainted then " [known:D11 gc-handover-with-dirty-index]" else ""
     let tagMsg := fun (m : Msg) => match m with
       | .prop s => Msg.prop (s ++ known)
       | m => m
